@@ -29,6 +29,12 @@ def is_table(x):
     return isinstance(x, dict)
 
 
+def bp(bi, b):
+    """leaf-path prefix of block bi; a table marked {"like": "b0"} carries exactly the texts (and, where the format has one,
+    the position) of block 0: two DISTINCT source tables with identical content"""
+    return b.get("like", f"b{bi}") if isinstance(b, dict) else f"b{bi}"
+
+
 def T(rows, hdr=0):
     return {"hdr": hdr, "rows": rows}
 
@@ -54,7 +60,7 @@ def tables_in_order(doc):
                         tab(it, f"{path}.r{ri}c{ci}i{ii}")
     for bi, b in enumerate(doc):
         if is_table(b):
-            tab(b, f"b{bi}")
+            tab(b, bp(bi, b))
     return out
 
 
@@ -105,7 +111,7 @@ def docx_bytes(doc):
                 cells += f"<w:tc><w:tcPr/>{items}</w:tc>"
             rows += f"<w:tr>{cells}</w:tr>"
         return f"<w:tbl><w:tblPr/><w:tblGrid/>{rows}</w:tbl>"
-    body = "".join(table(b, f"b{bi}") if is_table(b) else par(tok(f"b{bi}")) for bi, b in enumerate(doc))
+    body = "".join(table(b, bp(bi, b)) if is_table(b) else par(tok(f"b{bi}")) for bi, b in enumerate(doc))
     document = f'<?xml version="1.0" encoding="UTF-8" standalone="yes"?><w:document xmlns:w="{W_NS}"><w:body>{body}<w:sectPr/></w:body></w:document>'
     return zipped({
         "[Content_Types].xml": '<?xml version="1.0" encoding="UTF-8"?><Types xmlns="http://schemas.openxmlformats.org/package/2006/content-types">'
@@ -119,7 +125,7 @@ def docx_bytes(doc):
 
 
 # ---------------------------------------------------------------------- pptx --
-def pptx_bytes(tables):
+def _pptx_slide_xml(tables):
     """one slide, one graphic frame per table (DrawingML tables do not nest)"""
     frames = ""
     for ti, t in enumerate(tables):
@@ -127,29 +133,39 @@ def pptx_bytes(tables):
         for ri, r in enumerate(t["rows"]):
             cells = ""
             for ci, c in enumerate(r):
-                ps = "".join(f"<a:p><a:r><a:t>{par_text(it, f'b{ti}.r{ri}c{ci}i{ii}')}</a:t></a:r></a:p>" for ii, it in enumerate(c) if not is_table(it))
+                ps = "".join(f"<a:p><a:r><a:t>{par_text(it, f'{bp(ti, t)}.r{ri}c{ci}i{ii}')}</a:t></a:r></a:p>" for ii, it in enumerate(c) if not is_table(it))
                 cells += f"<a:tc><a:txBody><a:bodyPr/>{ps or '<a:p/>'}</a:txBody><a:tcPr/></a:tc>" if c else "<a:tc><a:tcPr/></a:tc>"
             rows += f'<a:tr h="370840">{cells}</a:tr>'
         frames += (f'<p:graphicFrame><p:nvGraphicFramePr><p:cNvPr id="{ti + 4}" name="Table {ti}"/><p:cNvGraphicFramePr/><p:nvPr/></p:nvGraphicFramePr>'
-                   f'<p:xfrm><a:off x="0" y="{ti * 1000000}"/><a:ext cx="100" cy="100"/></p:xfrm><a:graphic><a:graphicData uri="http://schemas.openxmlformats.org/drawingml/2006/table">'
+                   f'<p:xfrm><a:off x="0" y="{int(bp(ti, t)[1:]) * 1000000}"/><a:ext cx="100" cy="100"/></p:xfrm><a:graphic><a:graphicData uri="http://schemas.openxmlformats.org/drawingml/2006/table">'
                    f'<a:tbl><a:tblPr/><a:tblGrid/>{rows}</a:tbl></a:graphicData></a:graphic></p:graphicFrame>')
     slide = (f'<?xml version="1.0" encoding="UTF-8" standalone="yes"?><p:sld xmlns:a="{A_NS}" xmlns:p="{P_NS}" xmlns:r="{R_NS}"><p:cSld><p:spTree>'
              f'<p:nvGrpSpPr><p:cNvPr id="1" name=""/><p:cNvGrpSpPr/><p:nvPr/></p:nvGrpSpPr><p:grpSpPr/>{frames}</p:spTree></p:cSld></p:sld>')
-    pres = (f'<?xml version="1.0" encoding="UTF-8" standalone="yes"?><p:presentation xmlns:a="{A_NS}" xmlns:p="{P_NS}" xmlns:r="{R_NS}">'
-            f'<p:sldIdLst><p:sldId id="256" r:id="rId1"/></p:sldIdLst></p:presentation>')
-    return zipped({
+    return slide
+
+
+def pptx_bytes(tables, more_slides=()):
+    """one slide per table list (the first from `tables`, further ones from `more_slides`)"""
+    slides = [_pptx_slide_xml(tables)] + [_pptx_slide_xml(t) for t in more_slides]
+    n = len(slides)
+    pres = (f'<?xml version="1.0" encoding="UTF-8" standalone="yes"?><p:presentation xmlns:a="{A_NS}" xmlns:p="{P_NS}" xmlns:r="{R_NS}"><p:sldIdLst>'
+            + "".join(f'<p:sldId id="{256 + k}" r:id="rId{k + 1}"/>' for k in range(n)) + "</p:sldIdLst></p:presentation>")
+    files = {
         "[Content_Types].xml": '<?xml version="1.0" encoding="UTF-8"?><Types xmlns="http://schemas.openxmlformats.org/package/2006/content-types">'
                                '<Default Extension="rels" ContentType="application/vnd.openxmlformats-package.relationships+xml"/><Default Extension="xml" ContentType="application/xml"/>'
                                '<Override PartName="/ppt/presentation.xml" ContentType="application/vnd.openxmlformats-officedocument.presentationml.presentation.main+xml"/>'
-                               '<Override PartName="/ppt/slides/slide1.xml" ContentType="application/vnd.openxmlformats-officedocument.presentationml.slide+xml"/></Types>',
+                               + "".join(f'<Override PartName="/ppt/slides/slide{k + 1}.xml" ContentType="application/vnd.openxmlformats-officedocument.presentationml.slide+xml"/>' for k in range(n))
+                               + "</Types>",
         "_rels/.rels": f'<?xml version="1.0" encoding="UTF-8"?><Relationships xmlns="http://schemas.openxmlformats.org/package/2006/relationships">'
                        f'<Relationship Id="rId1" Type="{R_NS}/officeDocument" Target="ppt/presentation.xml"/></Relationships>',
         "ppt/presentation.xml": pres,
-        "ppt/_rels/presentation.xml.rels": f'<?xml version="1.0" encoding="UTF-8"?><Relationships xmlns="http://schemas.openxmlformats.org/package/2006/relationships">'
-                                           f'<Relationship Id="rId1" Type="{R_NS}/slide" Target="slides/slide1.xml"/></Relationships>',
-        "ppt/slides/slide1.xml": slide,
-        "ppt/slides/_rels/slide1.xml.rels": '<?xml version="1.0" encoding="UTF-8"?><Relationships xmlns="http://schemas.openxmlformats.org/package/2006/relationships"/>',
-    })
+        "ppt/_rels/presentation.xml.rels": '<?xml version="1.0" encoding="UTF-8"?><Relationships xmlns="http://schemas.openxmlformats.org/package/2006/relationships">'
+                                           + "".join(f'<Relationship Id="rId{k + 1}" Type="{R_NS}/slide" Target="slides/slide{k + 1}.xml"/>' for k in range(n)) + "</Relationships>",
+    }
+    for k, sl in enumerate(slides):
+        files[f"ppt/slides/slide{k + 1}.xml"] = sl
+        files[f"ppt/slides/_rels/slide{k + 1}.xml.rels"] = '<?xml version="1.0" encoding="UTF-8"?><Relationships xmlns="http://schemas.openxmlformats.org/package/2006/relationships"/>'
+    return zipped(files)
 
 
 # ----------------------------------------------------------------------- odf --
@@ -178,15 +194,25 @@ def odf_zip(mimetype, body):
 
 
 def odt_bytes(doc):
-    body = "".join(odf_table(b, f"b{bi}") if is_table(b) else f"<text:p>{tok(f'b{bi}')}</text:p>" for bi, b in enumerate(doc))
+    body = "".join(odf_table(b, bp(bi, b)) if is_table(b) else f"<text:p>{tok(f'b{bi}')}</text:p>" for bi, b in enumerate(doc))
     return odf_zip("application/vnd.oasis.opendocument.text", f"<office:text>{body}</office:text>")
 
 
-def odp_bytes(doc):
-    frames = "".join(f'<draw:frame svg:x="1cm" svg:y="{bi}cm" svg:width="5cm" svg:height="1cm">{odf_table(b, f"b{bi}")}</draw:frame>' if is_table(b)
-                     else f'<draw:frame><draw:text-box><text:p>{tok(f"b{bi}")}</text:p></draw:text-box></draw:frame>' for bi, b in enumerate(doc))
+def odp_bytes(doc, more_pages=()):
+    if more_pages:
+        pages = ""
+        for k, d in enumerate([doc] + list(more_pages)):
+            inner = odp_bytes_frames(d)
+            pages += f'<draw:page draw:name="page{k + 1}">{inner}</draw:page>'
+        return odf_zip("application/vnd.oasis.opendocument.presentation", f"<office:presentation>{pages}</office:presentation>")
     return odf_zip("application/vnd.oasis.opendocument.presentation",
-                   f'<office:presentation><draw:page draw:name="page1">{frames}</draw:page></office:presentation>')
+                   f'<office:presentation><draw:page draw:name="page1">{odp_bytes_frames(doc)}</draw:page></office:presentation>')
+
+
+def odp_bytes_frames(doc):
+    frames = "".join(f'<draw:frame svg:x="1cm" svg:y="{bi}cm" svg:width="5cm" svg:height="1cm">{odf_table(b, bp(bi, b))}</draw:frame>' if is_table(b)
+                     else f'<draw:frame><draw:text-box><text:p>{tok(f"b{bi}")}</text:p></draw:text-box></draw:frame>' for bi, b in enumerate(doc))
+    return frames
 
 
 # ---------------------------------------------------------------- html / epub --
@@ -221,11 +247,25 @@ def html_text(doc):
         if t["hdr"]:
             out += "</tbody>" if len(t["rows"]) > t["hdr"] else "</thead>"
         return out + "</table>"
-    body = "".join(table(b, f"b{bi}") if is_table(b) else par("p", f"b{bi}") for bi, b in enumerate(doc))
+    body = "".join(table(b, bp(bi, b)) if is_table(b) else par("p", f"b{bi}") for bi, b in enumerate(doc))
     return f"<html><head><title>t</title></head><body>{body}</body></html>"
 
 
-def epub_bytes(doc):
+def epub_bytes(doc, more_chapters=()):
+    if more_chapters:
+        docs = [doc] + list(more_chapters)
+        xh = lambda d: '<?xml version="1.0" encoding="UTF-8"?><!DOCTYPE html>' + html_text(d).replace("<html>", '<html xmlns="http://www.w3.org/1999/xhtml">')
+        opf = ('<?xml version="1.0" encoding="UTF-8"?><package xmlns="http://www.idpf.org/2007/opf" version="3.0" unique-identifier="id">'
+               '<metadata xmlns:dc="http://purl.org/dc/elements/1.1/"><dc:identifier id="id">x</dc:identifier><dc:title>t</dc:title><dc:language>en</dc:language></metadata><manifest>'
+               + "".join(f'<item id="c{k + 1}" href="c{k + 1}.xhtml" media-type="application/xhtml+xml"/>' for k in range(len(docs))) + "</manifest><spine>"
+               + "".join(f'<itemref idref="c{k + 1}"/>' for k in range(len(docs))) + "</spine></package>")
+        files = {"mimetype": "application/epub+zip",
+                 "META-INF/container.xml": '<?xml version="1.0"?><container version="1.0" xmlns="urn:oasis:names:tc:opendocument:xmlns:container"><rootfiles>'
+                                           '<rootfile full-path="OEBPS/content.opf" media-type="application/oebps-package+xml"/></rootfiles></container>',
+                 "OEBPS/content.opf": opf}
+        for k, d in enumerate(docs):
+            files[f"OEBPS/c{k + 1}.xhtml"] = xh(d)
+        return zipped(files)
     xhtml = '<?xml version="1.0" encoding="UTF-8"?><!DOCTYPE html>' + html_text(doc).replace("<html>", '<html xmlns="http://www.w3.org/1999/xhtml">')
     opf = ('<?xml version="1.0" encoding="UTF-8"?><package xmlns="http://www.idpf.org/2007/opf" version="3.0" unique-identifier="id">'
            '<metadata xmlns:dc="http://purl.org/dc/elements/1.1/"><dc:identifier id="id">x</dc:identifier><dc:title>t</dc:title><dc:language>en</dc:language></metadata>'
@@ -257,7 +297,7 @@ def rtf_bytes(doc, row_sep="\n", cell_prefix="\\intbl "):
             defs = "".join(f"\\cellx{1500 * (i + 1)}" for i in range(len(r)))
             cells = ""
             for ci, c in enumerate(r):
-                pars = [par_text(it, f"b{bi}.r{ri}c{ci}i{ii}") for ii, it in enumerate(c) if not is_table(it)]
+                pars = [par_text(it, f"{bp(bi, b)}.r{ri}c{ci}i{ii}") for ii, it in enumerate(c) if not is_table(it)]
                 cells += cell_prefix + "\\par ".join(pars) + "\\cell"
             rows.append(f"\\trowd\\trgaph108{defs}{cells}\\row")
         out += row_sep.join(rows)
@@ -266,7 +306,7 @@ def rtf_bytes(doc, row_sep="\n", cell_prefix="\\intbl "):
 
 
 def rtf_expected(doc):
-    return [[[ "\n".join(par_text(it, f"b{bi}.r{ri}c{ci}i{ii}") for ii, it in enumerate(c) if not is_table(it)) for ci, c in enumerate(r)]
+    return [[[ "\n".join(par_text(it, f"{bp(bi, b)}.r{ri}c{ci}i{ii}") for ii, it in enumerate(c) if not is_table(it)) for ci, c in enumerate(r)]
              for ri, r in enumerate(b["rows"])] for bi, b in enumerate(doc) if is_table(b)]
 
 
@@ -328,15 +368,16 @@ def used_range(sh):
     return r, c
 
 
-def xlsx_bytes(sh):
+def xlsx_bytes(sh, copies=1):
     import openpyxl
     wb = openpyxl.Workbook()
-    ws = wb.active
-    for i, row in enumerate(sh):
-        for j, k in enumerate(row):
-            v = sheet_value(k, i, j, i == 0)
-            if v is not None:
-                ws.cell(row=i + 1, column=j + 1, value=v)
+    for n in range(copies):
+        ws = wb.active if n == 0 else wb.create_sheet(f"Copy{n}")
+        for i, row in enumerate(sh):
+            for j, k in enumerate(row):
+                v = sheet_value(k, i, j, i == 0)
+                if v is not None:
+                    ws.cell(row=i + 1, column=j + 1, value=v)
     buf = io.BytesIO()
     wb.save(buf)
     return buf.getvalue()
@@ -364,7 +405,7 @@ def xls_expected(sh):
     return [[[typed(k, i, j) for j, k in enumerate(row)] for i, row in enumerate(sh)]]
 
 
-def xls_tables(sh):
+def xls_tables(sh, copies=1):
     """enter the real reader at _read_content with a fake parsed workbook (real xlrd Cell objects)"""
     import xlrd
     from xlrd.sheet import Cell
@@ -389,7 +430,7 @@ def xls_tables(sh):
         datemode = 0
 
         def sheets(self):
-            return [Sheet()]
+            return [Sheet() for _ in range(copies)]
     real = xlrd.open_workbook
     xlrd.open_workbook = lambda *a, **k: Book()
     try:
@@ -422,6 +463,31 @@ def ods_bytes(sh, header_rows_wrapper=0):
     return odf_zip("application/vnd.oasis.opendocument.spreadsheet", body)
 
 
+ODS_LITERALS = [("date", "date-value", "2024-01-02", "2024-01-02"), ("date", "date-value", "2024-01-02T00:00:00", "2024-01-02T00:00:00"),
+                ("date", "date-value", "2024-01-02T10:30:00", "2024-01-02T10:30:00"), ("date", "date-value", "1999-12-31T23:59:59.5", "1999-12-31T23:59:59.5"),
+                ("time", "time-value", "PT10H30M00S", "PT10H30M00S"), ("time", "time-value", "PT00H00M00S", "PT00H00M00S"),
+                ("boolean", "boolean-value", "true", True), ("boolean", "boolean-value", "false", False),
+                ("float", "value", "3", 3), ("float", "value", "2.5", 2.5), ("float", "value", "0", 0), ("float", "value", "-4.0", -4),
+                ("currency", "value", "1250.75", 1250.75), ("percentage", "value", "0.5", 0.5)]
+
+
+def search_ods_values():
+    """typed ODS cells through the public reader: one row per literal (label, value)"""
+    rows = ""
+    for i, (vt, an, lit, _want) in enumerate(ODS_LITERALS):
+        rows += (f'<table:table-row><table:table-cell office:value-type="string"><text:p>k{i}</text:p></table:table-cell>'
+                 f'<table:table-cell office:value-type="{vt}" office:{an}="{lit}"><text:p>shown{i}</text:p></table:table-cell></table:table-row>')
+    body = f'<office:spreadsheet><table:table table:name="S"><table:table-column table:number-columns-repeated="2"/>{rows}</table:table></office:spreadsheet>'
+    got, dims = read_tables("ods", odf_zip("application/vnd.oasis.opendocument.spreadsheet", body))
+    grid = got[0] if got else []
+    for i, (vt, an, lit, want) in enumerate(ODS_LITERALS):
+        val = grid[i][1] if i < len(grid) and len(grid[i]) > 1 else "<missing>"
+        if not same(val, want):
+            return {"target": "ods_extractor.py::read_ods", "inputs": {"office:value-type": vt, f"office:{an}": lit}, "expected": want, "observed": val,
+                    "detail": f"cell with office:value-type={vt} office:{an}={lit!r} came back as {val!r}"}
+    return None
+
+
 def ods_expected(sh):
     r, c = used_range(sh)
     def typed(k, i, j):
@@ -452,7 +518,7 @@ def read_tables(fmt, data):
 FORMATS = {
     "docx_extractor.py": ("docx", lambda d: docx_bytes(d), lambda d: expected(d, nl_rule)),
     "odt_extractor.py": ("odt", lambda d: odt_bytes(d), lambda d: expected(d, nl_rule)),
-    "odp_extractor.py": ("odp", lambda d: odp_bytes(d), lambda d: expected(d, nl_rule)[:1]),
+    "odp_extractor.py": ("odp", lambda d: odp_bytes(d), lambda d: expected(d, nl_rule)),
     "pptx_extractor.py": ("pptx", lambda d: pptx_bytes([b for b in d if is_table(b)]), lambda d: expected(d, pptx_rule)),
     "html_extractor.py": ("html", lambda d: html_text(d).encode(), lambda d: expected(d, html_rule)),
     "epub_extractor.py": ("epub", lambda d: epub_bytes(d), lambda d: expected(d, html_rule)),
@@ -497,6 +563,21 @@ def dims_ok(tables, dims):
 
 def run_shape(fname, shape):
     fmt, build, exp = FORMATS[fname]
+    if isinstance(shape, dict) and "units" in shape and fmt in ("pptx", "odp", "epub"):
+        # several slides / pages / chapters, each with its own tables (texts repeat across units: identical tables on different units)
+        us = shape["units"]
+        tabs = lambda d: [b for b in d if is_table(b)]
+        data = (pptx_bytes(tabs(us[0]), [tabs(u) for u in us[1:]]) if fmt == "pptx" else
+                odp_bytes(us[0], us[1:]) if fmt == "odp" else epub_bytes(us[0], us[1:]))
+        got, dims = read_tables(fmt, data)
+        want = []
+        for u in us:
+            want += (expected(u, nl_rule) if fmt == "odp" else exp(u))
+        return got, want, dims
+    if fmt in ("xls", "xlsx") and isinstance(shape, dict) and "copies" in shape:      # several sheets with identical content
+        n, rows = shape["copies"], shape["rows"]
+        got, dims = xls_tables(rows, n) if fmt == "xls" else read_tables("xlsx", xlsx_bytes(rows, n))
+        return got, exp(rows) * n, dims
     if fmt == "xls":
         got, dims = xls_tables(shape)
         return got, exp(shape), dims
@@ -615,15 +696,18 @@ def search_shapes(obligation, skip_known=False):
     if skip_known:
         if fname in ("xlsx_extractor.py", "ods_extractor.py", "xls_extractor.py"):
             num = "i" if fname != "xls_extractor.py" else "F"
-            shapes = ([[["s", "s"]], [["s"]]] if fname != "xls_extractor.py" else []) + [[["s", "s"], ["s", num]], [["s"], ["b"]], [["s", "s"], ["N", "f"]], [["s", "s"], ["N", "N"], ["s", "N"]], [["s", "s"], ["s", "s"], [num, "s"]]]
+            shapes = ([[["s", "s"]], [["s"]]] if fname != "xls_extractor.py" else []) + ([{"copies": 2, "rows": [["s", "s"], ["s", num]]}] if fname != "ods_extractor.py" else []) + [[["s", "s"], ["s", num]], [["s"], ["b"]], [["s", "s"], ["N", "f"]], [["s", "s"], ["N", "N"], ["s", "N"]], [["s", "s"], ["s", "s"], [num, "s"]]]
         else:
-            shapes = [[T([[P]])], [T([[P, P], [P, P]])], [T([[[]], [P]])], [T([[P], [P, P]])], [T([[P]]), T([[P]])], [T([[P]]), "p", T([[P, P]])], [T([[P], [P]], 1)], [T([[P, P]]), T([[P], [P]]), T([[P]])]]
+            shapes = [[T([[P]])], [T([[P, P], [P, P]])], [T([[[]], [P]])], [T([[P], [P, P]])], [T([[P]]), T([[P]])], [T([[P]]), "p", T([[P, P]])], [T([[P], [P]], 1)], [T([[P, P]]), T([[P], [P]]), T([[P]])],
+                      [T([[P, P]]), dict(T([[P, P]]), like="b0")], [T([[P]]), dict(T([[P]]), like="b0"), dict(T([[P]]), like="b0")]]
             if fname not in ("html_extractor.py",):
                 shapes.append([T([[["p", "p"], P]])])
             if fname == "pptx_extractor.py":
                 shapes = [[b for b in s_ if is_table(b)] for s_ in shapes if not any(is_table(b) and b["hdr"] for b in s_)]
             if fname == "odp_extractor.py":
-                shapes = [s_ for s_ in shapes if len(s_) == 1]
+                shapes = [s_ for s_ in shapes if len([b for b in s_ if is_table(b)]) >= 1 and not any("like" in b for b in s_ if is_table(b))]
+            if fname in ("pptx_extractor.py", "odp_extractor.py", "epub_extractor.py"):
+                shapes += [{"units": [[T([[P, P]])], [T([[P]])]]}, {"units": [[T([[P]])], [T([[P]])], [T([[P], [P]])]]}]
         for sh in shapes:
             bad, detail, got, want = replay_shape(obligation, sh)
             if bad:
@@ -636,7 +720,7 @@ def search_shapes(obligation, skip_known=False):
             shapes += [[["i"], ["d"]], [["s", "s"], ["d", "i"]]]
     else:
         shapes = [[T([[P]])], [T([[P, P], [P, P]])], [T([[["p", "p"]]])], [T([[[]], [P]])], [T([[P], [P, P]])], [T([[P]]), T([[P]])], [T([[P]]), "p", T([[P, P]])],
-                  [T([[[inner]]])], [T([[["p", inner]], [P]])], [T([[P], [P]], 1)]]
+                  [T([[[inner]]])], [T([[["p", inner]], [P]])], [T([[P], [P]], 1)], [T([[P, P]]), dict(T([[P, P]]), like="b0")]]
         if fname in ("html_extractor.py", "epub_extractor.py"):
             shapes.append([T([[["s"]]])])
             shapes += [[T([[["/"], P]])], [T([[P, ["/"]], [["/"], P]], 1)], [T([[["/"]]])]]
@@ -670,12 +754,17 @@ def find(req):
         if bad:
             return {"reproduced": True, "target": ob, "inputs": {"shape": w["shape"]}, "expected": want, "observed": got, "detail": detail}
         r = search_rtf() if "rtf_extractor.py" in ob else search_shapes(ob)
+        if not r and "ods_extractor.py" in ob and "cell-holds" in ob:
+            r = search_ods_values()
         if r:
             return dict(r, reproduced=True)
         return {"reproduced": False, "note": "the witness shape and the small native scope satisfy the clause natively", "shape": w["shape"], "observed": got}
     if "/bounded#" in ob:
         r = search_rtf() if "rtf_extractor.py" in ob else search_shapes(ob)
         return dict(r, reproduced=True) if r else {"reproduced": False, "note": "small native scope satisfies the clause"}
+    if "ods_extractor.py::_extract_cell_value" in ob:
+        r = search_ods_values()
+        return dict(r, reproduced=True) if r else {"reproduced": False, "note": "typed ODS literals (dates, date-times, times, booleans, numbers) come back unchanged natively"}
     if "/call-site#" in ob and "rtf_extractor.py" not in ob:
         # a call site that hands the walker's result on was not recognised: run the public reader end to end
         fname = ob.split("/")[1].split("::")[0]
